@@ -57,6 +57,9 @@ def subspaces(tier):
         out += C.structure_subspaces(D.shapes(2, 3) if ep == 2 and tier == "quick" else s3, 2, False, mode="creator", episodes=ep)
     for sec in ("gif", "video"):
         out += C.structure_subspaces(D.shapes(3, 3), 2, False, canonical=True, mode="reuse", second=sec)
+    # the same two-frame query per decade boundary, so that a witness is concretised (and replayed end to end) with 10, 100, 1000 frames
+    for ir, jr in (([1, 9], [10, 99]), ([10, 99], [100, 999]), ([100, 999], [1000, 1200])):
+        out.append(dict(mode="order", shape=[1], machines=[[0]], listing="ji", limit=100000, irange=ir, jrange=jr))
     out.append(dict(mode="order", shape=[1], machines=[[0]], listing="ij", limit=100000))
     out.append(dict(mode="order", shape=[1], machines=[[0]], listing="ji", limit=100000))
     if tier == "thorough":
@@ -609,8 +612,9 @@ def order_harness(eng, sp):
         for v in ce.violations:
             eng.fail(v.key, v.detail)
         return
-    i = eng.fresh_int("i", 1, sp["limit"])
-    j = eng.fresh_int("j", 1, sp["limit"])
+    ir, jr = sp.get("irange", [1, sp["limit"]]), sp.get("jrange", [1, sp["limit"]])
+    i = eng.fresh_int("i", ir[0], ir[1])
+    j = eng.fresh_int("j", jr[0], jr[1])
     eng.assume(i < j)
     REC.reset()
     f1, f2 = FigStub(), FigStub()
